@@ -275,53 +275,65 @@ fn c17_aborted_then_commit() -> i32 {
     }
 }
 
-/// C28.csr.meta.marker_covers_writer: a database with a compacted relationship segment must vacuum and
-/// keep its edges in both directions, properties and nodes; it must stay writable afterwards.
+/// C28 witness class: a database compacted several times (segments whose four page lists span several
+/// pages, orphaned pages from earlier compactions) must vacuum, keep its edges in both directions,
+/// properties and nodes, and stay fully usable: more writes and another compaction after the vacuum.
 fn c28_vacuum_after_compact() -> i32 {
     use nervusdb_api::{GraphSnapshot, GraphStore};
     let d = tmpdir("c28-vacuum");
     let ndb = d.join("t.ndb");
     let wal = d.join("t.wal");
+    const N: u32 = 60;
     let r = std::panic::catch_unwind(|| -> Result<(), String> {
+        let dump = |e: &GraphEngine| -> (Vec<usize>, Vec<usize>, Option<nervusdb_api::PropertyValue>) {
+            let s = e.snapshot();
+            let out: Vec<usize> = (0..N).map(|n| s.neighbors(n, None).count()).collect();
+            let inc: Vec<usize> = (0..N).map(|n| s.incoming_neighbors(n, None).count()).collect();
+            (out, inc, s.node_property(5, "k"))
+        };
+        // expected degrees, maintained alongside
+        let mut out_deg = vec![0usize; N as usize];
+        let mut in_deg = vec![0usize; N as usize];
         {
             let e = GraphEngine::open(&ndb, &wal).map_err(|e| e.to_string())?;
             let mut tx = e.begin_write();
-            let mut ids = Vec::new();
-            for i in 0..40u64 { ids.push(tx.create_node(100 + i, 0).map_err(|e| e.to_string())?); }
-            for i in 0..39usize { tx.create_edge(ids[i], 3, ids[i + 1]); tx.create_edge(ids[i], 4, ids[(i * 7) % 40]); }
-            tx.set_node_property(ids[5], "k".to_string(), nervusdb_api::PropertyValue::String("v".repeat(300)));
+            for i in 0..N as u64 { tx.create_node(100 + i, 0).map_err(|e| e.to_string())?; }
+            tx.set_node_property(5, "k".to_string(), nervusdb_api::PropertyValue::String("v".repeat(20000)));
             tx.commit().map_err(|e| e.to_string())?;
-            e.compact().map_err(|e| format!("compact failed: {e}"))?;
-            // garbage to reclaim: a second compaction leaves the first segment's pages unreferenced
-            let mut tx = e.begin_write();
-            tx.create_edge(ids[0], 9, ids[39]);
-            tx.commit().map_err(|e| e.to_string())?;
-            e.compact().map_err(|e| format!("second compact failed: {e}"))?;
+            // four rounds: all pairs with one relationship type each, compact after every round
+            for round in 0..4u32 {
+                let mut tx = e.begin_write();
+                for i in 0..N { for j in 0..N { if i != j && (i + j + round) % 2 == 0 { tx.create_edge(i, 10 + round, j); out_deg[i as usize] += 1; in_deg[j as usize] += 1; } } }
+                tx.commit().map_err(|e| e.to_string())?;
+                e.compact().map_err(|e| format!("compact {round} failed: {e}"))?;
+            }
         }
-        let dump = |e: &GraphEngine| -> (Vec<usize>, Vec<usize>, Option<nervusdb_api::PropertyValue>) {
-            let s = e.snapshot();
-            let out: Vec<usize> = (0..40u32).map(|n| s.neighbors(n, None).count()).collect();
-            let inc: Vec<usize> = (0..40u32).map(|n| s.incoming_neighbors(n, None).count()).collect();
-            (out, inc, s.node_property(5, "k"))
-        };
         let before = { let e = GraphEngine::open(&ndb, &wal).map_err(|e| e.to_string())?; dump(&e) };
-        nervusdb_storage::vacuum::vacuum_in_place(&ndb, &wal).map_err(|e| format!("vacuum failed on a database with a compacted segment: {e}"))?;
-        let e = GraphEngine::open(&ndb, &wal).map_err(|e| format!("open after vacuum failed: {e}"))?;
-        let after = dump(&e);
-        if before != after { return Err(format!("content changed by vacuum: out-degrees equal={}, in-degrees equal={}, property equal={}", before.0 == after.0, before.1 == after.1, before.2 == after.2)); }
-        let mut tx = e.begin_write();
-        let n = tx.create_node(999, 0).map_err(|e| e.to_string())?;
-        tx.create_edge(n, 3, 0);
-        tx.commit().map_err(|e| format!("write after vacuum failed: {e}"))?;
-        drop(e);
-        let e = GraphEngine::open(&ndb, &wal).map_err(|e| format!("reopen after post-vacuum write failed: {e}"))?;
+        if before.0 != out_deg || before.1 != in_deg { return Err("database content wrong before vacuum (not a vacuum problem)".into()); }
+        nervusdb_storage::vacuum::vacuum_in_place(&ndb, &wal).map_err(|e| format!("vacuum failed on a database with compacted segments: {e}"))?;
+        {
+            let e = GraphEngine::open(&ndb, &wal).map_err(|e| format!("open after vacuum failed: {e}"))?;
+            let after = dump(&e);
+            if before != after { return Err(format!("content changed by vacuum: out-degrees equal={}, in-degrees equal={}, property equal={}", before.0 == after.0, before.1 == after.1, before.2 == after.2)); }
+            // keep using it: another batch, another compaction
+            let mut tx = e.begin_write();
+            let n = tx.create_node(999, 0).map_err(|e| e.to_string())?;
+            for j in 0..N { tx.create_edge(n, 3, j); in_deg[j as usize] += 1; }
+            tx.set_node_property(7, "big".to_string(), nervusdb_api::PropertyValue::String("w".repeat(30000)));
+            tx.commit().map_err(|e| format!("write after vacuum failed: {e}"))?;
+            e.compact().map_err(|e| format!("compact after vacuum failed: {e}"))?;
+        }
+        let e = GraphEngine::open(&ndb, &wal).map_err(|e| format!("reopen after post-vacuum write and compaction failed: {e}"))?;
         let again = dump(&e);
-        if again.0 != before.0 || again.2 != before.2 { return Err("content changed after post-vacuum write and reopen".into()); }
+        if again.0 != out_deg || again.1 != in_deg || again.2 != before.2 {
+            return Err(format!("content wrong after post-vacuum writes and reopen: out-degrees equal={}, in-degrees equal={}, property equal={}", again.0 == out_deg, again.1 == in_deg, again.2 == before.2));
+        }
+        if e.snapshot().node_property(7, "big") != Some(nervusdb_api::PropertyValue::String("w".repeat(30000))) { return Err("property written after vacuum reads back wrong".into()); }
         Ok(())
     });
     let _ = std::fs::remove_dir_all(&d);
     match r {
-        Ok(Ok(())) => { println!("conforms: vacuum of a twice-compacted database kept edges (both directions), property and stayed writable"); 0 }
+        Ok(Ok(())) => { println!("conforms: vacuum of a four-times-compacted database kept edges (both directions) and a multi-page property, and the database stayed usable (write, compact, reopen)"); 0 }
         Ok(Err(e)) => { println!("VIOLATION reproduced: {e}"); 1 }
         Err(_) => { println!("VIOLATION reproduced: panic"); 1 }
     }
@@ -401,6 +413,92 @@ fn c26_multimap_sweep(seeds: u64, steps: usize) -> i32 {
     0
 }
 
+/// Witness class for C18: random interleavings of blob writes (1..3 pages), blob deletes, B-tree inserts,
+/// node creations (crossing the 512-record page boundary, forcing relocations) on one page store; after
+/// every step each structure must still read back exactly what was stored in it.  Bounded search.
+fn c18_ownership_mix(seeds: u64, steps: usize) -> i32 {
+    use nervusdb_storage::blob_store::BlobStore;
+    use nervusdb_storage::idmap::IdMap;
+    use nervusdb_storage::index::btree::BTree;
+    use nervusdb_storage::pager::Pager;
+    for seed in 1..=seeds {
+        let d = tmpdir("c18-mix");
+        let ndb = d.join("t.ndb");
+        let mut rng = seed.wrapping_mul(0x9E3779B97F4A7C15) | 1;
+        let mut next = move || { rng ^= rng << 13; rng ^= rng >> 7; rng ^= rng << 17; rng };
+        let r = std::panic::catch_unwind(move || -> Result<(), String> {
+            let mut pager = Pager::open(&ndb).map_err(|e| e.to_string())?;
+            let mut idmap = IdMap::load(&mut pager).map_err(|e| e.to_string())?;
+            let mut tree = BTree::create(&mut pager).map_err(|e| e.to_string())?;
+            let mut blobs: Vec<(u64, Vec<u8>)> = Vec::new();
+            let mut keys: Vec<(Vec<u8>, u64)> = Vec::new();
+            let mut nodes: u32 = 0;
+            for step in 0..steps {
+                let what = next() % 10;
+                let desc;
+                if what < 3 {
+                    let len = [5usize, 700, 8182, 8183, 20000, 10000][(next() % 6) as usize];
+                    let fill = (next() % 251) as u8;
+                    let data: Vec<u8> = (0..len).map(|i| fill.wrapping_add(i as u8)).collect();
+                    let id = BlobStore::write(&mut pager, &data).map_err(|e| format!("step {step}: blob write failed: {e}"))?;
+                    blobs.push((id, data));
+                    desc = format!("wrote a {len}-byte blob at page {id}");
+                } else if what < 5 && !blobs.is_empty() {
+                    let i = (next() % blobs.len() as u64) as usize;
+                    let (id, _) = blobs.remove(i);
+                    BlobStore::delete(&mut pager, id).map_err(|e| format!("step {step}: blob delete failed: {e}"))?;
+                    desc = format!("deleted the blob at page {id}");
+                } else if what < 7 {
+                    let mut k = vec![b'k'; 900];
+                    let a = next() % 1000;
+                    k[0..8].copy_from_slice(&a.to_be_bytes());
+                    let p = step as u64 + 1;
+                    tree.insert(&mut pager, &k, p).map_err(|e| format!("step {step}: tree insert failed: {e}"))?;
+                    keys.push((k, p));
+                    desc = "inserted a 900-byte key into the B-tree".to_string();
+                } else {
+                    let n = [1u32, 40, 300, 600][(next() % 4) as usize];
+                    for _ in 0..n {
+                        idmap.apply_create_node(&mut pager, 1_000_000 + nodes as u64, 7, nodes).map_err(|e| format!("step {step}: create node {nodes} failed: {e}"))?;
+                        nodes += 1;
+                    }
+                    desc = format!("created {n} nodes (table now holds {nodes})");
+                }
+                // every structure still holds what was stored in it
+                for (id, data) in &blobs {
+                    let back = BlobStore::read(&pager, *id).map_err(|e| format!("step {step} ({desc}): blob at page {id} unreadable: {e}"))?;
+                    if &back != data { return Err(format!("step {step} ({desc}): blob at page {id} ({} bytes) reads back differently", data.len())); }
+                }
+                let mut cur = tree.cursor_lower_bound(&pager, &[]).map_err(|e| format!("step {step} ({desc}): tree unreadable: {e}"))?;
+                let mut got: Vec<(Vec<u8>, u64)> = Vec::new();
+                while cur.is_valid().map_err(|e| format!("step {step} ({desc}): tree unreadable: {e}"))? {
+                    got.push((cur.key().map_err(|e| e.to_string())?, cur.payload().map_err(|e| e.to_string())?));
+                    if !cur.advance().map_err(|e| format!("step {step} ({desc}): tree unreadable: {e}"))? { break; }
+                }
+                let mut want = keys.clone(); want.sort(); got.sort();
+                if got != want { return Err(format!("step {step} ({desc}): B-tree scan returns {} entries, {} were stored", got.len(), want.len())); }
+                if step % 5 == 0 || step + 1 == steps {
+                    let mut p2 = Pager::open(&ndb).map_err(|e| e.to_string())?;
+                    let m2 = IdMap::load(&mut p2).map_err(|e| format!("step {step} ({desc}): node table unreadable: {e}"))?;
+                    if m2.len() != nodes as u64 { return Err(format!("step {step} ({desc}): node table holds {} records, {nodes} were created", m2.len())); }
+                    for i in [0u32, 511, 512, 513, 1023, 1024, nodes.saturating_sub(1)] {
+                        if i < nodes && m2.lookup(1_000_000 + i as u64) != Some(i) { return Err(format!("step {step} ({desc}): node record {i} reads back wrong")); }
+                    }
+                }
+            }
+            Ok(())
+        });
+        let _ = std::fs::remove_dir_all(&d);
+        match r {
+            Ok(Ok(())) => {}
+            Ok(Err(e)) => { println!("VIOLATION reproduced: seed {seed}: {e}"); return 1; }
+            Err(_) => { println!("VIOLATION reproduced: seed {seed}: panic"); return 1; }
+        }
+    }
+    println!("conforms: {seeds} seeds x {steps} interleaved operations, every structure kept its content");
+    0
+}
+
 fn main() {
     let a: Vec<String> = std::env::args().collect();
     let code = match a.get(1).map(|s| s.as_str()) {
@@ -411,6 +509,8 @@ fn main() {
         Some("c17_truncate_every_byte") => c17_truncate_every_byte(),
         Some("c17_commit_after_tail") => c17_commit_after_tail(&[0x01, 0x02]),
         Some("c18_node_table_spill") => c18_node_table_spill(),
+        Some("c18_ownership_mix_quick") => c18_ownership_mix(6, 60),
+        Some("c18_ownership_mix_thorough") => c18_ownership_mix(60, 150),
         Some("c26_multimap_quick") => c26_multimap_sweep(3, 400),
         Some("c26_multimap_thorough") => c26_multimap_sweep(40, 1500),
         Some("c28_vacuum_after_compact") => c28_vacuum_after_compact(),
